@@ -106,11 +106,22 @@ def origin_shift(spec):
     return latt.Spec(spec.label, spec.A, spec.g, basis, spec.spins, spec.Aq)
 
 
-def random_supercell_matrix(rng, d, negative=False):
+def random_supercell_matrix(rng, d, negative=False, skew=False):
+    """integer matrix with entries -3..3 and det 2..6 (or -2..-6); skew: right-multiplied by 2-4 elementary shears with
+    multipliers +-1, +-2 (same sublattice, sheared description, entries up to +-8)"""
     while True:
-        N = [[rng.randint(-2, 3) for _ in range(d)] for _ in range(d)]
+        N = [[rng.randint(-3, 3) for _ in range(d)] for _ in range(d)]
         det = int(latt.fdet([[Fr(x) for x in r] for r in N]))
-        if 2 <= (-det if negative else det) <= 6: return N, det
+        if not 2 <= (-det if negative else det) <= 6: continue
+        if skew:
+            M = np.array(N, dtype=int)
+            for _ in range(rng.randint(2, 4)):
+                a, b = rng.sample(range(d), 2)
+                E = np.eye(d, dtype=int); E[a, b] = rng.choice([1, -1, 2, -2])
+                M = M @ E
+            if np.abs(M).max() > 8: continue
+            N = M.tolist()
+        return N, det
 
 
 def supercell(rng, nr, spec, N, noise):
@@ -139,9 +150,9 @@ def supercell(rng, nr, spec, N, noise):
 def run(ck):
     from onsager import crystal
     ck.rule = ("random primitive crystals (all crystal systems, 2-D/3-D, 1-3 species, <= 4 atoms, optional scalar spins; non-primitive "
-               "decorations rejected by an exact test) x random integer supercell matrices with entries in -2..3 and det 2..6 (10% "
+               "decorations rejected by an exact test) x random integer supercell matrices with entries in -3..3 and det 2..6, half of them right-multiplied by 2-4 shears (entries up to +-8), plus 5 fixed skewed matrices (10% "
                "with det -2..-6: left-handed description) x random atom order x thresholds 1e-8 (default, half of the cases), 1e-6, 1e-5 passed to Crystal x per-copy uniform noise of both signs with "
-               "amplitude 0, 0.05, 0.1 or 0.2 x threshold (the code compares differences of differences: up to 4 x amplitude must stay below the threshold); in 60% of the cases the first atom is moved to the origin (copies at coordinate exactly 0, "
+               "amplitude 0, 0.05, 0.1 or 0.2 x threshold / (largest row sum of |N|) in supercell unit coordinates (the code compares differences of differences, and the noise is amplified by N in the reduced cell: decisions stay separated); in 60% of the cases the first atom is moved to the origin (copies at coordinate exactly 0, "
                "noisy copies straddle the cell boundary); "
                "distinct = distinct (crystal, matrix, order); all cases non-trivial (index >= 2)")
     ck.trusted += ["harness/latt.py, c19.py: supercell construction in exact rationals, rationalisation of the result lattice in the "
@@ -185,25 +196,42 @@ def run(ck):
     terms = []
     ncases = ck.n(70, 1500)
     tries = 0
+    # skewed supercells that need 8-10 passes of minlattice (always run)
+    named = {s_.label: s_ for s_ in latt.named_specs()}
+    forced = [(named["sc"], [[1, -2, -1], [-1, -2, 1], [-1, -3, 2]]), (named["hcp"], [[-1, 0, 0], [-3, -1, 3], [-1, 0, 2]]),
+              (named["fcc"], [[3, 5, -2], [1, 2, 1], [-2, -1, 7]]), (named["square"], [[5, 8], [3, 5]]), (named["tria"], [[7, 3], [2, 2]])]
+    stats["forced"] = len(forced)
+    ncases += len(forced)
     while stats["cases"] < ncases and tries < 20 * ncases:
         tries += 1
-        dim = 2 if rng.random() < 0.35 else 3
-        spec = latt.random_spec(rng, dim=dim, maxatoms=4, nchem_max=3, spin_mode=rng.choice(["none", "none", "scalar"]))
-        if rng.random() < 0.2:
-            spec = pseudo_translation_spec(rng, spec)
-        if latt.pure_translations(spec_view(spec)):
-            stats["rejected-nonprimitive"] += 1; continue
-        neg = rng.random() < 0.1
-        N, det = random_supercell_matrix(rng, dim, neg)
-        if rng.random() < 0.6: spec = origin_shift(spec)
-        thr = rng.choice([1e-8, 1e-8, 1e-6, 1e-5])
-        noise = rng.choice([0.0, 0.05, 0.1, 0.2, 0.2]) * thr   # per-copy noise of both signs; 4 x amplitude stays below the threshold
+        if forced:
+            spec, N = forced.pop(0)
+            dim = spec.dim; det = int(latt.fdet([[Fr(x) for x in r] for r in N])); neg = det < 0
+            thr, noise = 1e-8, 0.0
+        else:
+            dim = 2 if rng.random() < 0.35 else 3
+            spec = latt.random_spec(rng, dim=dim, maxatoms=4, nchem_max=3, spin_mode=rng.choice(["none", "none", "scalar"]))
+            if rng.random() < 0.2:
+                spec = pseudo_translation_spec(rng, spec)
+            if latt.pure_translations(spec_view(spec)):
+                stats["rejected-nonprimitive"] += 1; continue
+            neg = rng.random() < 0.1
+            skew = rng.random() < 0.5
+            N, det = random_supercell_matrix(rng, dim, neg, skew)
+            stats["skewed"] = stats.get("skewed", 0) + int(skew)
+            if rng.random() < 0.6: spec = origin_shift(spec)
+            thr = rng.choice([1e-8, 1e-8, 1e-6, 1e-5])
+            # per-copy noise of both signs in SUPERCELL unit coordinates; in the unit coordinates of the primitive cell it is amplified
+            # by up to the largest row sum of |N|, and the code compares differences of differences (4 x amplitude): keep that below
+            # the threshold so that threshold decisions stay separated
+            amp = max(1, max(sum(abs(x) for x in r) for r in N))
+            noise = rng.choice([0.0, 0.05, 0.1, 0.2, 0.2]) * thr / amp
         A, basis, spins = supercell(rng, nr, spec, N, noise)
         stats["cases"] += 1; stats["negdet"] += int(neg); stats["noisy"] += int(noise > 0)
         replay = {"primitive": spec.describe(), "supercell_matrix": N, "det": det, "noise": noise, "threshold": thr,
                   "lattice": A.tolist(), "basis": [[u.tolist() for u in ul] for ul in basis], "spins": spins}
         ck.case(key=(spec.describe(), N, [[[round(float(x), 6) for x in u] for u in ul] for ul in basis]), nontrivial=True,
-                kind="%dD-det%d-thr%g-noise%g-%s" % (dim, det, thr, noise / thr, "spins" if spins else "nospin"),
+                kind="%dD-det%d-thr%g-%s-%s" % (dim, det, thr, "noisy" if noise else "exact", "spins" if spins else "nospin"),
                 sample={"primitive": spec.label, "atoms": spec.natoms(), "supercell_matrix": N, "det": det, "noise": noise, "threshold": thr} if len(ck.samples) < 6 else None)
         try:
             prim = latt.build(spec)      # the implementation on the primitive description
@@ -235,20 +263,32 @@ def run(ck):
             report("atoms per species %s differ from the primitive cell's %s" % (cres, cprim), dict(replay, **summary), "c19-species-count")
         if not detres > 0:
             report("reduced lattice is left-handed (det %.6g)" % detres, dict(replay, **summary), "c19-lefthanded")
-        gkey = "c19-group-order"
+        # exact metric of the returned cell; is it sorted and pair-reduced (what minlattice() guarantees when it runs to completion)?
+        gres = None; reduced = None; klass = None
+        try:
+            Uq = [[latt.rat(x, 720) for x in r] for r in np.linalg.solve(spec.A, res.lattice)]
+            gres = latt.fmat_mul(latt.fmat_T(Uq), latt.fmat_mul(spec.g, Uq))
+            reduced = (all(gres[i][i] <= gres[i + 1][i + 1] for i in range(dim - 1)) and
+                       all(abs(2 * gres[i][j]) <= gres[i][i] for i in range(dim) for j in range(i + 1, dim)))
+        except latt.Irrational:
+            pass
+        summary["result_lattice"] = res.lattice.tolist(); summary["pair_reduced"] = reduced
+        if reduced is False:
+            klass = "c19-not-reduced"
+            report("minlattice() returned a cell that is not sorted / pair-reduced (metric %s)" % [[str(x) for x in r] for r in gres],
+                   dict(replay, **summary), "c19-not-reduced")
+        elif reduced and len(latt.holohedry(gres, 2)) != len(latt.holohedry(gres, 1)):
+            # reduced by the code's own criterion, but at a tie a_i.a_j / a_i^2 = +-1/2: rotations need entries beyond +-1 (known finding)
+            klass = "c19-minlattice-tie"
+        summary["tie_class"] = (klass == "c19-minlattice-tie")
         if len(res.G) != len(prim.G):
-            # classify by the cell minlattice() returned: if its metric has automorphisms with entries beyond +-1 the group
-            # search of gengroup (entries in {-1,0,1}) is incomplete there -- minlattice stopped at a tie (a_i.a_j / a_i^2 = +-1/2)
-            try:
-                Uq = [[latt.rat(x, 720) for x in r] for r in np.linalg.solve(spec.A, res.lattice)]
-                gres = latt.fmat_mul(latt.fmat_T(Uq), latt.fmat_mul(spec.g, Uq))
-                if len(latt.holohedry(gres, 2)) != len(latt.holohedry(gres, 1)): gkey = "c19-minlattice-tie"
-            except latt.Irrational:
-                pass
-            summary["result_lattice"] = res.lattice.tolist(); summary["tie_class"] = (gkey == "c19-minlattice-tie")
             report("|G| = %d differs from the primitive description's %d%s" % (len(res.G), len(prim.G),
-                   " [minlattice returned a cell whose metric automorphisms have entries beyond +-1]" if gkey != "c19-group-order" else ""),
-                   dict(replay, **summary), gkey)
+                   " [returned cell: %s]" % klass if klass else ""), dict(replay, **summary), klass or "c19-group-order")
+        wy = lambda c_: sorted((min(w)[0], len(w)) for w in c_.Wyckoff)
+        pg = lambda c_: sorted((ci, len(p)) for ci, l in enumerate(c_.pointG) for p in l)
+        if cres == cprim and (wy(res) != wy(prim) or pg(res) != pg(prim)):
+            report("Wyckoff sets / site point-group orders %s / %s differ from the primitive description's %s / %s%s" % (
+                wy(res), pg(res), wy(prim), pg(prim), " [returned cell: %s]" % klass if klass else ""), dict(replay, **summary), klass or "c19-wyckoff")
         # geometry: multiset of interatomic distances per species pair, against the exact primitive description
         if cres == cprim:
             L = max(1.0, float(np.sqrt((A * A).sum(axis=0)).max()))
@@ -275,7 +315,10 @@ def run(ck):
         if any(x.denominator != 1 for r in U for x in r):
             report("result lattice vectors are not lattice vectors of the crystal (U = %s)" % [[str(x) for x in r] for r in U],
                    dict(replay, **summary), "c19-lattice-not-sublattice"); continue
-        terms.append(("reduce_diag %s (ml %s) %s %s %s %s" % (
+        gs = latt.lcmden([x for r in gres for x in r]) if gres is not None else 1
+        Gint = [[int(x * gs) for x in r] for r in gres] if gres is not None else [[0] * dim for _ in range(dim)]
+        terms.append(("((if reducedb %s (ml %s) then 0 else 10) + reduce_diag %s (ml %s) %s %s %s %s)%%nat" % (
+            coq_nat(dim), coq_list([coq_list([coq_Z(x) for x in r]) for r in Gint]),
             coq_nat(dim), coq_list([coq_list([coq_Z(int(x)) for x in r]) for r in U]),
             coq_list([coq_Z(x) for x in cprim]), coq_list([coq_Z(x) for x in cres]), coq_Z(len(prim.G)), coq_Z(len(res.G))),
             dict(replay, **summary)))
@@ -291,10 +334,12 @@ def run(ck):
             ck.broken_proof = "correspondence Model/Reduce: could not parse the model output"; break
         for (t, replay), code in zip(ch, res[0]):
             stats["coq"] += 1
+            if code >= 10:
+                report("Coq certificate reducedb: the returned cell is not sorted / pair-reduced", replay, "c19-not-reduced")
+                code -= 10
             if code != 0:
                 report("Coq summary checker: " + DIAG.get(code, str(code)), replay,
-                       "c19-minlattice-tie" if (code == 4 and stats["by-key"].get("c19-minlattice-tie") and replay.get("result_lattice")
-                                                and replay.get("tie_class")) else "c19-coq-%d" % code)
+                       "c19-minlattice-tie" if (code == 4 and replay.get("tie_class")) else "c19-coq-%d" % code)
     ck.extra["stats"] = stats
     ck.extra["skipped"] = {"nonprimitive-decoration": stats["rejected-nonprimitive"]}
     ck.extra["traces_validated_against_impl"] = stats["coq"]
